@@ -37,16 +37,28 @@ structure St where
   m : MState := MState.init
   pipes : List PSt := []
   logs : List (String × Nat) := []
-  fails : List String := []
+  /-- failing predicate and the known finding it is attributed to ("" = none) -/
+  fails : List (String × String) := []
   tags : List String := []
   sharedStops : Nat := 0
+  /-- pipeline key → logs of pages whose `Batcher.Accept` was abandoned (it returned an
+      error: the handler was stopped; the exporter of this workload never fails) and that
+      the shared batcher has not flushed yet -/
+  orphans : List (String × List Nat) := []
+  inflight : List (String × List Nat) := []
   calls : Nat := 0
 
 def St.tag (s : St) (t : String) : St := if s.tags.contains t then s else { s with tags := t :: s.tags }
-def St.violate (s : St) (f : String) : St := if s.fails.contains f then s else { s with fails := s.fails ++ [f] }
+def St.violate (s : St) (f : String) (known : String := "") : St :=
+  if s.fails.contains (f, known) then s else { s with fails := s.fails ++ [(f, known)] }
+
+def flushSig : String := "C33:shared-batcher-flushes-abandoned-page-after-reset"
+def stoppedSig : String := "C33:shared-batcher-delivers-for-stopped-pipeline"
 def St.nLogs (s : St) (l : String) : Nat := (s.logs.lookup l).getD 0
 def St.pipe (s : St) (k : String) : PSt := (s.pipes.find? (·.key = k)).getD { key := k }
 def St.setPipe (s : St) (p : PSt) : St := { s with pipes := p :: s.pipes.filter (·.key ≠ p.key) }
+/-- abandoned pages outlive the pipeline row (delete) and its epochs (reset, re-create) -/
+def St.abandonedOf (s : St) (k : String) : List Nat := (s.orphans.lookup k).getD []
 
 /-- expected result and driver events of a manager operation in model state `m` -/
 def expect (m : MState) (a : String) (p : Pipe) : String × List String :=
@@ -117,13 +129,17 @@ def handleReplM : Handler := fun inp out => do
     if mrun ≠ grun || mlive ≠ glive then
       if agree then note := s!"event {k} ({a} {key}): model running={mrun} live={mlive}, real running={grun} live={glive}"
       agree := false
-    -- new epochs
-    for wr in ← strArrField ev "writes" do
-      match wr.splitOn ":" with
-      | [kind, pk] =>
-        if kind = "create" || kind = "reset" then s := s.setPipe { key := pk }
-        if kind = "delete" then s := { s with pipes := s.pipes.filter (·.key ≠ pk) }
-      | _ => pure ()
+    -- pages entering / leaving Batcher.Accept
+    for pg in ← arrField ev "pages" do
+      let pk := s!"{← strField pg "l"}/{← strField pg "e"}"
+      if (← strField pg "k") = "send" then
+        s := { s with inflight := (pk, ← natArr pg "ids") :: s.inflight.filter (·.1 ≠ pk) }
+      else
+        let ids := (s.inflight.lookup pk).getD []
+        s := { s with inflight := s.inflight.filter (·.1 ≠ pk) }
+        if !boolFieldD pg "ok" && !ids.isEmpty then
+          s := { (s.tag "page-abandoned") with
+                 orphans := (pk, ids ++ s.abandonedOf pk) :: s.orphans.filter (·.1 ≠ pk) }
     -- C33 predicates per pipeline on the real observations (a step may contain several
     -- exporter calls and state writes; the writes are checked against all calls of the step
     -- and before: the harness lets a write through only after the call that caused it)
@@ -132,15 +148,22 @@ def handleReplM : Handler := fun inp out => do
       let ids ← natArr c "ids"
       let ps := s.pipe pk
       s := { s with calls := s.calls + 1 }
-      if !(grun.contains pk) && !(s.m.running.map pname).contains pk then
-        s := s.violate s!"delivery-for-stopped-pipeline"
-      match ids with
+      -- a page whose Accept was abandoned and that the still running shared batcher flushes
+      let orphan := !ids.isEmpty && ids.all (s.abandonedOf pk).contains
+      if orphan then
+        s := { (s.tag "abandoned-page-flushed") with
+               orphans := (pk, (s.abandonedOf pk).filter (!ids.contains ·)) :: s.orphans.filter (·.1 ≠ pk) }
+      let isRunning := (s.m.running.map pname).contains pk
+      if !isRunning then
+        s := s.violate "delivery_for_stopped_pipeline" (if orphan then stoppedSig else "")
+      else match ids with
       | [] => s := s.violate "in_order_no_gaps"
       | first :: _ =>
         let last := first + ids.length - 1
-        if ids ≠ List.range' first ids.length || first = 0 || last > s.nLogs ((pk.splitOn "/").headD "") ||
-            first > ps.delivHW + 1 then
+        if ids ≠ List.range' first ids.length || first = 0 || last > s.nLogs ((pk.splitOn "/").headD "") then
           s := s.violate "in_order_no_gaps"
+        if first > ps.delivHW + 1 then
+          s := s.violate "in_order_no_gaps" (if orphan then flushSig else "")
         if first ≤ ps.delivHW then s := s.tag "redelivery"
         s := s.setPipe { ps with delivHW := max ps.delivHW last, acked := ids ++ ps.acked }
     for w in ← arrField ev "stores" do
@@ -149,10 +172,19 @@ def handleReplM : Handler := fun inp out => do
       let ps := s.pipe pk
       if v > ackPrefix ps.acked v then s := s.violate "persisted_le_acked"
       s := s.setPipe { ps with persisted := v }
+    -- (the gated calls of an operation's step happen before the operation completes: a state
+    -- write drained before a reset belongs to the old epoch)
+    -- new epochs
+    for wr in ← strArrField ev "writes" do
+      match wr.splitOn ":" with
+      | [kind, pk] =>
+        if kind = "create" || kind = "reset" then s := s.setPipe { key := pk }
+        if kind = "delete" then s := { s with pipes := s.pipes.filter (·.key ≠ pk) }
+      | _ => pure ()
     lastQuiet := a = "settle" && boolFieldD ev "quiet"
     k := k + 1
   -- quiescence: every running pipeline delivered every log of its ledger
-  if !lastQuiet then s := s.violate "at_least_once(no quiescence)"
+  if !lastQuiet then s := s.violate "at_least_once_no_quiescence"
   for p in s.m.running do
     let ps := s.pipe (pname p)
     let n := s.nLogs s!"l{p.ledger}"
@@ -169,7 +201,11 @@ def handleReplM : Handler := fun inp out => do
          nontrivial := s.sharedStops ≥ 1 && s.calls ≥ 3,
          tags := s.tags.reverse,
          note := if note ≠ "" then note else if prop then "" else s!"C33 predicates failing on the real trace: {s.fails}",
-         sig := match s.fails.head? with | some f => s!"C33m:{f}" | none => "" }
+         -- a failure without a recognised cause (or any failure of a case that disagrees
+         -- with the model) is never covered by a known finding
+         sig := match s.fails.find? (fun f => f.2 = "" || !agree) with
+           | some f => s!"C33m:{f.1}"
+           | none => match s.fails.head? with | some f => f.2 | none => "" }
 
 def handlers : List (String × Handler) := [("replm", handleReplM)]
 
